@@ -60,6 +60,8 @@ pub fn poly_grid(dim: usize, tier: Tier) -> Vec<Vec<(Vec<f64>, f64)>> {
             (vec![1.0], 1.0), (vec![-1.0], 0.0), (vec![1.0], -1.0), (vec![-1.0], 1.0), (vec![2.0], 1.0), (vec![0.0], 1.0), (vec![0.0], -1.0), (vec![0.0], 0.0),
             // a row that is not of unit length and whose scaled copy is not exact in f64
             (vec![3.0], 1.0),
+            // one unit in the last place looser than the first row
+            (vec![1.0], 1.0 + f64::EPSILON),
         ];
         for a in &rows {
             out.push(vec![a.clone()]);
@@ -73,6 +75,8 @@ pub fn poly_grid(dim: usize, tier: Tier) -> Vec<Vec<(Vec<f64>, f64)>> {
             (vec![1.0, 1.0], 1.0), (vec![-1.0, -1.0], -1.0), (vec![1.0, -1.0], 0.0), (vec![0.0, 0.0], 0.0), (vec![0.0, 0.0], -1.0),
             // rows that are neither axis-parallel nor of unit length (their scaled copies are not exact in f64)
             (vec![3.0, 4.0], 5.0), (vec![-1.0, -2.0], 1.0),
+            // one unit in the last place looser than the first row
+            (vec![1.0, 0.0], 1.0 + f64::EPSILON),
         ];
         for (i, a) in rows.iter().enumerate() {
             out.push(vec![a.clone()]);
@@ -247,6 +251,13 @@ pub fn rows_q(rows: &[(Vec<f64>, f64)]) -> Rows {
 }
 
 pub fn run_case(c: &Case) -> CaseOut {
+    run_case_mode(c, false)
+}
+
+/// `paths_only`: for trees that are too deep or too high-dimensional for the face enumeration, every root-to-terminal
+/// path is visited instead: an interior point of its region (exact LP, then rounded to f64 and re-verified exactly)
+/// must be routed to that terminal by the real evaluator and mapped as the definition says.
+pub fn run_case_mode(c: &Case, paths_only: bool) -> CaseOut {
     let mut out = CaseOut::default();
     let rec = c.describe();
     let name = c.name();
@@ -346,10 +357,56 @@ pub fn run_case(c: &Case) -> CaseOut {
         }
         return out;
     }
+    if paths_only {
+        let terms = s.terminals();
+        out.add("paths_total", terms.len() as u64);
+        for t in terms {
+            let rows = match s.path_rows(t) {
+                Ok(r) => r,
+                Err(e) => {
+                    out.violate(Violation::new(format!("{name}: path of terminal {t} cannot be read: {e}"), rec.clone()).tag("kind", "malformed").tag("generator", name));
+                    continue;
+                }
+            };
+            let w = match crate::lp::strict_feasible(n, &[], &rows) {
+                Some(w) => w,
+                None => {
+                    out.add("paths_without_interior", 1);
+                    continue;
+                }
+            };
+            // round to f64 and make sure the rounded point is still strictly inside
+            let xq: Vec<Q> = w.iter().map(|v| Q::from_f64(v.to_f64())).collect();
+            if !rows.iter().all(|(a, b)| &crate::q::dot(a, &xq) < b) {
+                out.add("paths_witness_not_representable", 1);
+                continue;
+            }
+            out.add("paths_visited", 1);
+            out.add("states", 1);
+            out.add("transitions", 1);
+            match crate::snap::conform(&tree, &s, &xq, false) {
+                Ok(true) => out.add("traces_validated_against_impl", 1),
+                Ok(false) => {}
+                Err(e) => out.violate(Violation::new(format!("{name}: real evaluator disagrees with documented routing on the path to terminal {t}: {e}"), rec.clone()).tag("kind", "conformance").tag("generator", name)),
+            }
+            let mut g = vec![];
+            let got = s.route(&AffMap::identity(n), n, &xq, &mut g).map(|o| o.map(|(_, m)| m.apply(&xq)));
+            let exp = rf.eval(&xq, &mut g).map(|o| o.map(|m| m.apply(&xq)));
+            if got != exp {
+                out.violate(
+                    Violation::new(format!("{name}: on the path to terminal {t} the tree gives {:?}, the definition {:?}", got.map(|o| o.map(|v| crate::q::fmt_vec(&v))), exp.map(|o| o.map(|v| crate::q::fmt_vec(&v)))), rec.clone())
+                        .tag("kind", "function").tag("generator", name).tag("where", "deep_path"),
+                );
+            }
+        }
+        return out;
+    }
     let imp = TreeSide(&s);
     let mut conf = 0u64;
     let mut conf_err = None;
-    let exact_vals = !matches!(c, Case::HardSigmoid(..));
+    // (values at points next to a bias of 1 + 2^-52 are not exactly representable)
+    let ulp_rows = matches!(c, Case::FromPoly { rows, .. } if rows.iter().any(|(_, b)| (*b * 1024.0).fract() != 0.0));
+    let exact_vals = !matches!(c, Case::HardSigmoid(..)) && !ulp_rows;
     let o = refine(n, &imp, rf.as_ref(), &cfg, &mut out, &mut |face, _, _| {
         let (n, e) = conform_face(&tree, &s, face, exact_vals);
         conf += n;
@@ -384,6 +441,18 @@ pub fn run(tier: Tier) -> Report {
     rep.set("programs", cs.len() as u64);
     let total = par_cases(&cs, |_, c| run_case(c));
     rep.absorb(total);
+    // chain-shaped trees with more than 64 levels: every root-to-terminal path instead of every face
+    let deep: Vec<Case> = {
+        let mut v = vec![Case::ClassChar(70, 0), Case::ClassChar(70, 69), Case::ClassChar(66, 33), Case::InfNorm(40, Some(-1.0), Some(2.0)), Case::InfNorm(70, None, Some(1.0)), Case::InfNorm(70, Some(0.5), None)];
+        let rows1: Vec<(Vec<f64>, f64)> = (0..70).map(|k| (vec![1.0], 100.0 - k as f64)).collect();
+        let rows2: Vec<(Vec<f64>, f64)> = (0..72).map(|k| (vec![1.0, (k as f64 - 36.0) / 8.0], 50.0 + (k % 7) as f64)).collect();
+        v.push(Case::FromPoly { rows: rows1, f_true: Aff::row1(&[1.0], 0.0), f_false: Some(Aff::row1(&[0.0], 5.0)), fortran: false });
+        v.push(Case::FromPoly { rows: rows2, f_true: Aff::identity(2), f_false: None, fortran: false });
+        v
+    };
+    rep.set("deep_chain_programs", deep.len() as u64);
+    let td = par_cases(&deep, |_, c| run_case_mode(c, true));
+    rep.absorb(td);
     rep.set("bound", match tier {
         Tier::Quick => "activation generators dims 1..4 x every row x parameter grids; argmax/class dims 2..5; inf_norm bound grid; from_poly over 1-2 dim polytopes with <=3 rows incl. zero rows; from_slice/compose/remove_axes over 2-dim trees with <=5 nodes x 8 NaN patterns",
         Tier::Thorough => "same with dims 1..4, argmax/class 2..5, full 3-row polytope grid, trees with <= 7 nodes (dims 1..5, argmax 2..6)",
